@@ -142,12 +142,18 @@ def build_scenario(rng, payloads, attacker_authorized, proto=False):
     frames = frames[len(frames) // 3:] or frames
     per = max(1, len(payloads) // max(1, len(frames)))
     res, pi = [], 0
+    last_frame_pos = 0           # position in `res` right after the previous server frame
     for i, l in enumerate(out):
         if i in frames and pi < len(payloads):
-            for ch, bs in payloads[pi:pi + per]:
-                res.append("inject 0 %d %s" % (ch, hexb(bs)))
+            # the attacker's bytes reach the server's queues either right before the frame (behind what the other client
+            # delivered in this window) or somewhere earlier in the window (AHEAD of the other client's messages)
+            at = len(res) if rng.random() < 0.5 else rng.randrange(last_frame_pos, len(res) + 1)
+            inj_ = ["inject 0 %d %s" % (ch, hexb(bs)) for ch, bs in payloads[pi:pi + per]]
+            res[at:at] = inj_
             pi += per
         res.append(l)
+        if l.startswith("sframe"):
+            last_frame_pos = len(res)
     while pi < len(payloads):
         for ch, bs in payloads[pi:pi + 64]:
             res.append("inject 0 %d %s" % (ch, hexb(bs)))
@@ -160,6 +166,37 @@ def build_scenario(rng, payloads, attacker_authorized, proto=False):
     settle_from = len(res)
     res += gen_scripts.settle_lines(meta)
     return res, settle_from
+
+
+def shadow_scenarios(rng, n):
+    """junk from the attacker (slot 0, unauthorized in most cases) reaches the server's acknowledgement queue AHEAD of the
+    well-behaved client's acknowledgement in the same server frame; afterwards nothing changes: whatever client 1 acknowledged
+    must not be sent to it again"""
+    out = []
+    for i in range(n):
+        auth0 = rng.random() < 0.25
+        lines = ["cfg policy=all auth=custom track=%d nclients=2 timeout=10000" % rng.randrange(2), "start", "sframe 0 10", "connect 0 1200"]
+        if auth0:
+            lines.append("authorize 0")
+        lines += ["connect 1 1200", "authorize 1", "sop spawn 1 1 0=1 1=2", "sop spawn 2 1 0=3", "sframe 1 16",
+                  "deliver 1 s2c 0 all", "cframe 1", "deliver 1 c2s 0 all"]
+        for r in range(rng.randrange(3, 8)):
+            lines.append("sop mutate 1 %d=%d" % (r % 2, 10 + r))
+            if rng.random() < 0.5:
+                lines.append("sop mutate 2 0=%d" % (50 + r))
+            lines += ["sframe 1 16", "deliver 1 s2c 0 all", "deliver 1 s2c 1 all", "cframe 1"]
+            for _ in range(rng.randrange(1, 4)):
+                junk = rng.choice([[rng.randrange(256)], [rng.randrange(256), rng.randrange(256)], [0, 0, 1, 0], [], [rng.randrange(256) for _ in range(rng.randrange(3, 9))]])
+                lines.append("inject 0 0 %s" % hexb(junk))
+            lines.append("deliver 1 c2s 0 all")
+            if rng.random() < 0.4:
+                lines.append("inject 0 0 %s" % hexb([rng.randrange(256), rng.randrange(256)]))
+            for _ in range(rng.randrange(1, 3)):
+                lines += ["sframe 1 16", "deliver 1 s2c 0 all", "deliver 1 s2c 1 all", "cframe 1", "deliver 1 c2s 0 all"]
+        meta = dict(connected=[0, 1], events=False, authorized=[1] + ([0] if auth0 else []))
+        sf = len(lines)
+        out.append((lines + gen_scripts.settle_lines(meta), sf))
+    return out
 
 
 def strip_attacker(block):
@@ -213,6 +250,9 @@ def run(tier, seed, replay):
         lines, sf = build_scenario(rng, pl, attacker_authorized=(i % 2 == 0), proto=(i % 4 == 3))
         batch.append(lines)
         metas.append(sf)
+    for lines, sf in shadow_scenarios(rng, 6 if tier == "quick" else 120):
+        batch.append(lines)
+        metas.append(sf)
     # implementation with the injected bytes
     impl_runs = []
     all_lines, bounds = [], []
@@ -256,6 +296,10 @@ def run(tier, seed, replay):
         for p in probs:
             if p["prop"] in ("C01", "C09") and ("panicked" in p["why"] or "client 1" in p["why"] or "undecodable" in p["why"]):
                 oracle_fail.append(dict(problem=p, script=lines))
+                break
+            if p["prop"] == "C11" and "to client 1 " in p["why"] and "re-sent" in p["why"]:
+                # "keeps serving every client correctly afterwards": the well-behaved client's acknowledgements still count
+                oracle_fail.append(dict(problem=dict(p, why="while another client sends junk: " + p["why"]), script=lines))
                 break
         mism = None
         for tok in steps[0].split():
